@@ -388,3 +388,7 @@ element!(
     to_be: |this: f64| f64::from_bits(this.to_bits().to_be()),
     to_le: |this: f64| f64::from_bits(this.to_bits().to_le()),
 );
+
+#[cfg(kani)]
+#[path = "/verif/kani/engine/ta_element.rs"]
+mod verif_kani;
